@@ -344,21 +344,33 @@ def mon_spec(md_lib, cfg, ops, impl, stats, r=None):
             cur.append(op)
     segs.append((start, cur))
     md = {"parents": [None] * 16, "root": md_lib}
+    def _qplain(op):
+        return _plain(op) or (op[0] == "enqueue" and op[1] != 0) or (op[0] == "drain" and not op[2])
     for start, seg in segs:
-        if not seg or not all(_plain(o) for o in seg) or (mp11 and not _bracketed(seg)):
+        queued = False
+        if not seg:
+            continue
+        if not all(_plain(o) for o in seg):
+            # histories with enqueue_event / execute_queued_events: the specification with a pending list (proved for back)
+            if base in ("back", "back_fct") and all(_qplain(o) for o in seg):
+                queued = True
+            else:
+                continue
+        if mp11 and not _bracketed(seg):
             continue
         if any(k >= len(impl) for k in range(start, start + len(seg))):
             continue
         if any(("ESC" in impl[start + i]) or any(l.startswith("BAD") for l in impl[start + i]) for i in range(len(seg))):
             continue
         inp = msmgen.sx_mdef(md, md_lib) + "\n" + "\n".join(msmgen.sx_op(o) for o in seg) + "\n"
-        pr = subprocess.run([corr.MODEL, "spec", "1" if mp11 else "0", str(pol)], input=inp, capture_output=True, text=True, timeout=60)
+        args = [corr.MODEL, "qspec", str(pol)] if queued else [corr.MODEL, "spec", "1" if mp11 else "0", str(pol)]
+        pr = subprocess.run(args, input=inp, capture_output=True, text=True, timeout=60)
         if pr.returncode != 0 or pr.stdout.startswith("NOTCORE"):
             stats.dist[("spec oracle", "outside the core fragment")] += 1
             continue
         blocks = [b.split("\n") for b in pr.stdout.split("--\n") if b.strip()]
         blocks = [[l for l in b if l] for b in blocks]
-        stats.dist[("spec oracle", "histories compared")] += 1
+        stats.dist[("spec oracle", "histories with stored events compared" if queued else "histories compared")] += 1
         for i, sb in enumerate(blocks):
             if i >= len(seg):
                 break
